@@ -15,6 +15,8 @@ class Case:
         self.top = None
         self.text = None
         self.error = None       # exception text of constructor / generator
+        self.emit = None        # optional (p, top) -> text: how the text is requested (default: a fresh generator, getVerilogForHierarchy)
+        self.mode = 'hier'      # 'hier': whole hierarchy (closed design)   'single': getVerilog, one module (children are black boxes)
 
     def key(self):
         return (self.cls,) + tuple(sorted((k, str(v)) for k, v in self.params.items()))
@@ -483,4 +485,45 @@ def adversarial(quick):
             Inner(t, 'u0', I[0], I[1], m); Inner(t, 'u1', m, I[1], O[0])
         return make_top(p, [('a', 8), ('b', 8)], [('r', 8)], body)
     A(Case('nested_shared_structure', 'hierarchy', {'kind': 'nested_shared'}, b_nest))
+    return out
+
+
+# ------------------------------------------------------------------------------------------------ generator reuse
+def generator_reuse(quick):
+    """ONE VerilogGenerator object asked for several texts in sequence: different tops sharing library modules (Reg<w>, Add<w>,
+    Counter internals), the same top twice, getVerilog and getVerilogForHierarchy interleaved, a block that is not the generator's
+    own (`VerilogGenerator(top_a).getVerilogForHierarchy(obj=other)`), a sub-block of the hierarchy.  Every returned text is a
+    program of its own.  (No explicit createdStructures list: sharing one is a known finding of C19.)"""
+    out = []
+    for w in ([8] if quick else [1, 4, 8, 16]):
+        for variant in (0, 1):
+            state = {}
+            def setup(p, w=w, variant=variant, state=state):
+                if state: return
+                def body_a(t, I, O):
+                    x = t.wire('x', w); y = t.wire('y', w)
+                    p.Add(t, 'add', I[0], I[1], x); p.Reg(t, 'reg', x, y); p.Reg(t, 'rege', y, O[0], enable=I[2])
+                    state['cnt'] = p.Counter(t, 'cnt', I[2], I[2], O[1])
+                def body_b(t, I, O):
+                    x = t.wire('x', w); p.Reg(t, 'r0', I[0], x); p.Add(t, 'a0', x, I[0], O[0]); p.Sub(t, 's0', x, I[0], O[1])
+                    state['abs'] = p.Abs(t, 'abs', x, O[2])
+                state['A'] = make_top(p, [('a', w), ('b', w), ('en', 1)], [('q', w), ('c', w)], body_a, clsname='TopA')
+                state['B'] = make_top(p, [('a', w)], [('r', w), ('s', w), ('m', w)], body_b, clsname='TopB')
+                state['g'] = p.VerilogGenerator(state['A'])
+            steps = [('hier', 'A', None), ('hier', 'A', None), ('single', 'A', None), ('hier', 'B', 'B'), ('hier', 'A', 'A'), ('hier', 'cnt', 'cnt'),
+                     ('single', 'B', 'B'), ('hier', 'B', 'B'), ('hier', 'abs', 'abs'), ('hier', 'A', None)]
+            if variant == 1:      # start on a block that is not the generator's own, then alternate
+                steps = [('hier', 'B', 'B'), ('hier', 'A', None), ('hier', 'B', 'B'), ('single', 'cnt', 'cnt'), ('hier', 'cnt', 'cnt'), ('hier', 'A', 'A')]
+            for k, (mode, which, arg) in enumerate(steps):
+                def build(p, which=which, setup=setup, state=state):
+                    setup(p); return state[which]
+                def emit(p, top, mode=mode, arg=arg, state=state):
+                    g = state['g']
+                    obj = None if arg is None else state[arg]
+                    with quiet():
+                        return g.getVerilogForHierarchy(obj=obj) if mode == 'hier' else g.getVerilog(obj=obj)
+                c = Case('generator_reuse[w=%d,v=%d,call %d: %s(%s)]' % (w, variant, k, 'getVerilogForHierarchy' if mode == 'hier' else 'getVerilog', arg or ''),
+                         'generator_reuse', {'w': w, 'variant': variant, 'call': k, 'mode': mode, 'obj': arg or 'default'}, build)
+                c.emit, c.mode = emit, mode
+                out.append(c)
     return out
